@@ -136,7 +136,53 @@ def cells(tier):
                 if (h >> 20) % 2 == 0 and ka in build.NP_LAYOUTS + build.NP_VIEW_LAYOUTS and cfg.get("kb") not in build.AK_LAYOUTS + ("record",):
                     cfg["dtype_a"] = "be"
                 out.append(cfg)
+    # keyword and scalar arguments handed over as 0-d arrays are operands too: shape, dtype and bytes stay as they were
+    for d in (2, 3, 4):
+        for ka in ("np1", "np2", "flat", "jagged", "object"):
+            S = R.SYSTEMS[d]
+            h = zlib.crc32(f"kw0d{d}{ka}".encode())
+            out.append({"id": f"kw0d|{d}|{ka}", "op": "__extra__", "group": "kw0d", "extra_call": None, "da": d, "db": None,
+                        "sa": R.sysname(S[h % len(S)]), "fa": "gm"[(h >> 5) % 2], "ka": ka, "scal": "py"})
     return out
+
+
+def _kw0d(cell, elems, ctx):
+    d, ka = cell["da"], cell["ka"]
+    sa = opcheck.parse_system(cell["sa"])
+    rows = lattice.rows_for(sa, [e["a"]["c"] for e in elems], d)
+    if rows is None:
+        ctx.exclude("operand_not_representable")
+        return
+    calls = [("scale", lambda v, k: v.scale(k["a"]), 1), ("rotateZ", lambda v, k: v.rotateZ(k["a"]), 1), ("v * s", lambda v, k: v * k["a"], 1)]
+    if d == 2:
+        calls += [("to_Vector3D(z=)", lambda v, k: v.to_Vector3D(z=k["a"]), 1), ("to_Vector3D(theta=)", lambda v, k: v.to_Vector3D(theta=k["a"]), 1),
+                  ("to_Vector3D(eta=)", lambda v, k: v.to_Vector3D(eta=k["a"]), 1), ("to_3D(pz=)", lambda v, k: v.to_3D(pz=k["a"]), 1),
+                  ("to_Vector4D(z=, t=)", lambda v, k: v.to_Vector4D(z=k["a"], t=k["b"]), 2), ("to_xyzt(z=, t=)", lambda v, k: v.to_xyzt(z=k["a"], t=k["b"]), 2)]
+    if d == 3:
+        calls += [("to_Vector4D(t=)", lambda v, k: v.to_Vector4D(t=k["a"]), 1), ("to_Vector4D(tau=)", lambda v, k: v.to_Vector4D(tau=k["a"]), 1),
+                  ("to_4D(mass=)", lambda v, k: v.to_4D(mass=k["a"]), 1), ("to_xyzt(t=)", lambda v, k: v.to_xyzt(t=k["a"]), 1)]
+    if d == 4:
+        calls += [("boostZ(beta=)", lambda v, k: v.boostZ(beta=k["a"] / 8), 1), ("boostX(gamma=)", lambda v, k: v.boostX(gamma=1 + abs(k["a"])), 1)]
+    for dtype in (numpy.float64, numpy.int64, numpy.float32):
+        for what, fn, nk in calls:
+            v = lattice.make_operand(ka, sa, rows, cell["fa"] == "m")
+            kws = {"a": numpy.array(1.75 if dtype is not numpy.int64 else 2, dtype=dtype), "b": numpy.array(7.5 if dtype is not numpy.int64 else 9, dtype=dtype)}
+            before = {k: (a_.shape, a_.dtype.str, a_.tobytes(), a_.flags.writeable) for k, a_ in kws.items()}
+            ctx.evaluation()
+            try:
+                with numpy.errstate(all="ignore"):
+                    fn(v, kws)
+                outcome = "returned"
+            except Exception as e:  # noqa: BLE001
+                outcome = f"raised {type(e).__name__}"
+            after = {k: (a_.shape, a_.dtype.str, a_.tobytes(), a_.flags.writeable) for k, a_ in kws.items()}
+            if before != after:
+                ch = [k for k in before if before[k] != after[k]][0]
+                ctx.fail("mutated", f"{what} on a {d}D {ka} operand {outcome} and changed its 0-d {numpy.dtype(dtype).name} argument: "
+                         f"(shape, dtype, bytes, writeable) {before[ch]} -> {after[ch]}", op=what, variant=f"{d}{cell['sa']}", backend=ka)
+                return
+    ctx.nontrivial(sample={"zero_d_arguments_on": f"{d}D {ka}", "calls": [c[0] for c in calls]})
+    ctx.evaluations -= 1
 
 
 def examples(cell, tier):
@@ -166,6 +212,8 @@ class _XOp:
 
 
 def check_case(cell, elems, ctx, poison=None):
+    if cell.get("group") == "kw0d":
+        return _kw0d(cell, elems, ctx)
     if cell["op"] == "__extra__":
         name = cell["extra_call"]
         call = EXTRA[name][1]
